@@ -204,8 +204,6 @@ val firstn : nat -> 'a1 list -> 'a1 list
 
 val skipn : nat -> 'a1 list -> 'a1 list
 
-val seq : nat -> nat -> nat list
-
 val repeat : 'a1 -> nat -> 'a1 list
 
 module Z :
@@ -302,6 +300,8 @@ val setN : 'a1 list -> n -> 'a1 -> 'a1 list
 val b2n : bool -> n
 
 val last_opt : 'a1 list -> 'a1 option
+
+val nseq_from : n -> nat -> n list
 
 val nseq : n -> n list
 
